@@ -58,6 +58,38 @@ def rep_kvs(p, level=2):
     return out
 
 
+def uniform_kv(p, n):
+    """clamped, n control points, equally spaced interior knots (what knotvector.generate returns)"""
+    m = n - p
+    return [0.0] * (p + 1) + [i / float(m) for i in range(1, m)] + [1.0] * (p + 1)
+
+
+def tall_kvs(level=1, degrees=(1, 2, 3, 4, 5, 6), counts=None):
+    """T: the 'tall thin slice' - few knot vectors, but degrees up to 6 and up to 12 (level 2: 20) control points per
+    direction, so that code paths which only differ for large degree / long knot vectors are entered.  Per degree p:
+    Bezier (p >= 4 only, the small degrees have it in K), uniform clamped vectors with 7, 9, 12 control points and one
+    vector with 9 control points whose interior knots are dyadic with multiplicities 2,1,2,1.. (as far as they fit).
+    Returns [(p, kv)] simplest first."""
+    out = []
+    cnts = counts or ((7, 9, 12) if level < 2 else (7, 8, 9, 10, 12, 16, 20))
+    for p in degrees:
+        if p >= 4:
+            out.append((p, clamped_kv(p, [])))
+        for n in cnts:
+            if n > p + 1:
+                out.append((p, uniform_kv(p, n)))
+        need = 9 - p - 1
+        if p >= 2 and need >= 2:
+            interior, vals, i = [], [0.25, 0.5, 0.75, 0.125, 0.875, 0.375, 0.625], 0
+            while need > 0:
+                m = min(2 if i % 2 == 0 else 1, p, need)
+                interior.append((vals[i], m))
+                need -= m
+                i += 1
+            out.append((p, clamped_kv(p, interior)))
+    return out
+
+
 def unclamped_kvs(p, n):
     """unclamped alphabets for n control points: integer-uniform, left-clamped-only, right-clamped-only.
     End knots of the *domain* keep multiplicity < p on the unclamped side (DESIGN C03)."""
